@@ -1,1 +1,492 @@
-// placeholder
+//! Minecraft reference servers (wiki.vg Server List Ping; Bedrock unconnected pong).
+
+use super::*;
+use crate::vnet::{Chooser, ConnInfo, Responder};
+use gamedig::games::minecraft as mc;
+use std::net::SocketAddr;
+
+pub fn varint(mut v: i32) -> Vec<u8> {
+    let mut out = Vec::new();
+    let mut u = v as u32;
+    loop {
+        let b = (u & 0x7f) as u8;
+        u >>= 7;
+        if u == 0 {
+            out.push(b);
+            break;
+        }
+        out.push(b | 0x80);
+    }
+    v = 0;
+    let _ = v;
+    out
+}
+
+pub fn varint_string(s: &str) -> Vec<u8> {
+    let mut b = varint(s.len() as i32);
+    b.extend_from_slice(s.as_bytes());
+    b
+}
+
+// ---------------------------------------------------------------------------
+// Java
+
+#[derive(Clone, Debug, PartialEq)]
+pub enum Description {
+    Absent,
+    Text(String),
+    Chat(serde_json::Value),
+}
+
+#[derive(Clone, Debug, PartialEq)]
+pub struct JavaState {
+    pub version_name: String,
+    pub protocol: i32,
+    pub max: u32,
+    pub online: u32,
+    pub sample: Option<Vec<(String, String)>>,
+    pub description: Description,
+    pub favicon: Option<String>,
+    pub previews_chat: Option<bool>,
+    pub enforces_secure_chat: Option<bool>,
+    /// append the pong packet after the status packet
+    pub with_pong: bool,
+    /// extra unknown members in the JSON
+    pub extra_members: bool,
+}
+
+impl JavaState {
+    pub fn json(&self) -> serde_json::Value {
+        use serde_json::{json, Map, Value};
+        let mut players = Map::new();
+        players.insert("max".into(), json!(self.max));
+        players.insert("online".into(), json!(self.online));
+        if let Some(s) = &self.sample {
+            players.insert(
+                "sample".into(),
+                Value::Array(
+                    s.iter()
+                        .map(|(n, id)| json!({"name": n, "id": id}))
+                        .collect(),
+                ),
+            );
+        }
+        let mut root = Map::new();
+        root.insert(
+            "version".into(),
+            json!({"name": self.version_name, "protocol": self.protocol}),
+        );
+        root.insert("players".into(), Value::Object(players));
+        match &self.description {
+            Description::Absent => {}
+            Description::Text(t) => {
+                root.insert("description".into(), json!(t));
+            }
+            Description::Chat(v) => {
+                root.insert("description".into(), v.clone());
+            }
+        }
+        if let Some(f) = &self.favicon {
+            root.insert("favicon".into(), json!(f));
+        }
+        if let Some(b) = self.previews_chat {
+            root.insert("previewsChat".into(), json!(b));
+        }
+        if let Some(b) = self.enforces_secure_chat {
+            root.insert("enforcesSecureChat".into(), json!(b));
+        }
+        if self.extra_members {
+            root.insert("modinfo".into(), json!({"type": "FML", "modList": []}));
+        }
+        Value::Object(root)
+    }
+
+    pub fn stream(&self) -> Vec<u8> {
+        let js = self.json().to_string();
+        let mut body = vec![0x00];
+        body.extend(varint_string(&js));
+        let mut out = varint(body.len() as i32);
+        out.extend(body);
+        if self.with_pong {
+            out.extend_from_slice(&[0x09, 0x01, 0, 0, 0, 0, 0, 0, 0, 0]);
+        }
+        out
+    }
+
+    /// Everything but `description` (compared as parsed JSON by the oracle).
+    pub fn expected(&self) -> mc::JavaResponse {
+        mc::JavaResponse {
+            game_version: self.version_name.clone(),
+            protocol_version: self.protocol,
+            players_maximum: self.max,
+            players_online: self.online,
+            players: self.sample.as_ref().map(|s| {
+                s.iter()
+                    .map(|(n, id)| {
+                        mc::Player {
+                            name: n.clone(),
+                            id: id.clone(),
+                        }
+                    })
+                    .collect()
+            }),
+            description: match &self.description {
+                Description::Absent => "null".to_string(),
+                Description::Text(t) => serde_json::Value::String(t.clone()).to_string(),
+                Description::Chat(v) => v.to_string(),
+            },
+            favicon: self.favicon.clone(),
+            previews_chat: self.previews_chat,
+            enforces_secure_chat: self.enforces_secure_chat,
+            server_type: mc::Server::Java,
+        }
+    }
+}
+
+pub fn json_str_alts(default: &str) -> Vec<String> {
+    vec![
+        default.to_string(),
+        String::new(),
+        "quote \" backslash \\ slash / tab \t nl \n".to_string(),
+        "non-BMP 𝄞 😀 and §c colour".to_string(),
+        long_string(300),
+    ]
+}
+
+pub fn gen_java(c: &mut Chooser) -> JavaState {
+    JavaState {
+        version_name: pick(c, &json_str_alts("1.20.4")),
+        protocol: pick(c, &i32_alts(765)),
+        max: pick(c, &u32_alts(20)),
+        online: pick(c, &u32_alts(2)),
+        sample: pick(c, &[
+            Some(vec![
+                ("Alice".to_string(), "4566e69f-c907-48ee-8d71-d7ba5aa00d20".to_string()),
+                ("Bob".to_string(), "00000000-0000-0000-0000-000000000000".to_string()),
+            ]),
+            None,
+            Some(vec![]),
+            Some(vec![("quote\"d §name".to_string(), String::new())]),
+            Some(
+                (0 .. 12)
+                    .map(|i| (format!("p{i}"), format!("id-{i}")))
+                    .collect(),
+            ),
+        ]),
+        description: pick(c, &[
+            Description::Text("A Minecraft Server".into()),
+            Description::Absent,
+            Description::Text(String::new()),
+            Description::Text("quote \" and \\ and 𝄞".into()),
+            Description::Chat(serde_json::json!({"text": "Hello", "extra": [{"text": "world", "bold": true}]})),
+        ]),
+        favicon: pick(c, &[
+            None,
+            Some("data:image/png;base64,iVBORw0KGgo=".to_string()),
+            Some(String::new()),
+        ]),
+        previews_chat: pick(c, &[None, Some(true), Some(false)]),
+        enforces_secure_chat: pick(c, &[None, Some(true), Some(false)]),
+        with_pong: pick(c, &[false, true]),
+        extra_members: pick(c, &[false, true]),
+    }
+}
+
+/// The handshake + status request + ping the protocol defines.
+pub fn java_requests(hostname: &str, protocol_version: i32, port: u16) -> Vec<Vec<u8>> {
+    let mut hs = vec![0x00];
+    hs.extend(varint(protocol_version));
+    hs.extend(varint_string(hostname));
+    hs.extend_from_slice(&port.to_be_bytes());
+    hs.push(0x01);
+    let mut p1 = varint(hs.len() as i32);
+    p1.extend(hs);
+    vec![p1, vec![0x01, 0x00], vec![0x01, 0x01]]
+}
+
+/// Does the byte stream written by the client start with a well-formed
+/// handshake (next state 1) followed by a status request?
+pub fn is_java_request(sent: &[u8]) -> bool {
+    fn rd_varint(b: &[u8], p: &mut usize) -> Option<i32> {
+        let mut r: u32 = 0;
+        for i in 0 .. 5 {
+            let x = *b.get(*p)?;
+            *p += 1;
+            r |= ((x & 0x7f) as u32) << (7 * i);
+            if x & 0x80 == 0 {
+                return Some(r as i32);
+            }
+        }
+        None
+    }
+    let mut p = 0;
+    let Some(len) = rd_varint(sent, &mut p) else { return false };
+    let start = p;
+    if sent.get(p) != Some(&0) {
+        return false;
+    }
+    p += 1;
+    if rd_varint(sent, &mut p).is_none() {
+        return false;
+    }
+    let Some(hl) = rd_varint(sent, &mut p) else { return false };
+    p += hl as usize + 2;
+    if sent.get(p) != Some(&1) {
+        return false;
+    }
+    p += 1;
+    if p - start != len as usize {
+        return false;
+    }
+    sent[p ..].starts_with(&[0x01, 0x00])
+}
+
+// ---------------------------------------------------------------------------
+// Bedrock
+
+#[derive(Clone, Debug, PartialEq)]
+pub struct BedrockState {
+    /// the ';'-separated fields, at least 6
+    pub fields: Vec<String>,
+    pub server_guid: u64,
+}
+
+pub const BEDROCK_MAGIC: [u8; 16] = [
+    0x00, 0xff, 0xff, 0x00, 0xfe, 0xfe, 0xfe, 0xfe, 0xfd, 0xfd, 0xfd, 0xfd, 0x12, 0x34, 0x56, 0x78,
+];
+
+pub fn bedrock_request() -> Vec<u8> {
+    let mut b = vec![0x01, 0x11, 0x22, 0x33, 0x44, 0x55, 0x66, 0x77, 0x88];
+    b.extend_from_slice(&BEDROCK_MAGIC);
+    b.extend_from_slice(&[0; 8]);
+    b
+}
+
+impl BedrockState {
+    pub fn datagram(&self) -> Vec<u8> {
+        let s = self.fields.join(";");
+        let mut b = vec![0x1c, 0x11, 0x22, 0x33, 0x44, 0x55, 0x66, 0x77, 0x88];
+        b.extend_from_slice(&self.server_guid.to_be_bytes());
+        b.extend_from_slice(&BEDROCK_MAGIC);
+        b.extend_from_slice(&(s.len() as u16).to_be_bytes());
+        b.extend_from_slice(s.as_bytes());
+        b
+    }
+
+    pub fn expected(&self) -> mc::BedrockResponse {
+        let f = &self.fields;
+        mc::BedrockResponse {
+            edition: f[0].clone(),
+            name: f[1].clone(),
+            version_name: f[3].clone(),
+            protocol_version: f[2].clone(),
+            players_maximum: f[5].parse().unwrap(),
+            players_online: f[4].parse().unwrap(),
+            id: f.get(6).cloned(),
+            map: f.get(7).cloned(),
+            game_mode: f.get(8).map(|g| {
+                match g.as_str() {
+                    "Survival" => mc::GameMode::Survival,
+                    "Creative" => mc::GameMode::Creative,
+                    "Hardcore" => mc::GameMode::Hardcore,
+                    "Spectator" => mc::GameMode::Spectator,
+                    _ => mc::GameMode::Adventure,
+                }
+            }),
+            server_type: mc::Server::Bedrock,
+        }
+    }
+}
+
+pub fn gen_bedrock(c: &mut Chooser) -> BedrockState {
+    let fs = |c: &mut Chooser, d: &str| {
+        pick(c, &[
+            d.to_string(),
+            String::new(),
+            "a".to_string(),
+            "Zürich 東京 §c".to_string(),
+            long_string(120),
+        ])
+    };
+    let n = pick(c, &[12usize, 6, 7, 8, 9]);
+    let mut fields = vec![
+        fs(c, "MCPE"),
+        fs(c, "Dedicated Server"),
+        fs(c, "649"),
+        fs(c, "1.20.61"),
+        pick(c, &u32_alts(3)).to_string(),
+        pick(c, &u32_alts(10)).to_string(),
+        fs(c, "13253860892328930865"),
+        fs(c, "Bedrock level"),
+        pick(c, &["Survival", "Creative", "Hardcore", "Spectator", "Adventure"]).to_string(),
+        "1".to_string(),
+        "19132".to_string(),
+        "19133".to_string(),
+    ];
+    fields.truncate(n);
+    BedrockState {
+        fields,
+        server_guid: pick(c, &u64_alts(0x0102_0304_0506_0708)),
+    }
+}
+
+// ---------------------------------------------------------------------------
+// Legacy (1.6, 1.4, beta 1.8)
+
+#[derive(Clone, Copy, Debug, PartialEq, Eq)]
+pub enum LegacyKind {
+    V1_6,
+    V1_4,
+    VB1_8,
+}
+
+#[derive(Clone, Debug, PartialEq)]
+pub struct LegacyState {
+    pub kind: LegacyKind,
+    pub protocol: i32,
+    pub version: String,
+    pub motd: String,
+    pub online: u32,
+    pub max: u32,
+}
+
+pub fn legacy_request(kind: LegacyKind) -> Vec<u8> {
+    match kind {
+        LegacyKind::V1_6 => {
+            vec![
+                0xfe, 0x01, 0xfa, 0x00, 0x07, 0x00, 0x47, 0x00, 0x61, 0x00, 0x6D, 0x00, 0x65, 0x00, 0x44, 0x00, 0x69, 0x00,
+                0x67,
+            ]
+        }
+        LegacyKind::V1_4 => vec![0xfe, 0x01],
+        LegacyKind::VB1_8 => vec![0xfe],
+    }
+}
+
+impl LegacyState {
+    pub fn text(&self) -> String {
+        match self.kind {
+            LegacyKind::V1_6 => {
+                format!(
+                    "§1\0{}\0{}\0{}\0{}\0{}",
+                    self.protocol, self.version, self.motd, self.online, self.max
+                )
+            }
+            _ => format!("{}§{}§{}", self.motd, self.online, self.max),
+        }
+    }
+
+    pub fn stream(&self) -> Vec<u8> {
+        let units: Vec<u16> = self.text().encode_utf16().collect();
+        let mut b = vec![0xFF];
+        b.extend_from_slice(&(units.len() as u16).to_be_bytes());
+        for u in units {
+            b.extend_from_slice(&u.to_be_bytes());
+        }
+        b
+    }
+
+    pub fn expected(&self) -> mc::JavaResponse {
+        let (game_version, protocol_version, group) = match self.kind {
+            LegacyKind::V1_6 => (self.version.clone(), self.protocol, mc::LegacyGroup::V1_6),
+            LegacyKind::V1_4 => ("1.4+".to_string(), -1, mc::LegacyGroup::V1_4),
+            LegacyKind::VB1_8 => ("Beta 1.8+".to_string(), -1, mc::LegacyGroup::VB1_8),
+        };
+        mc::JavaResponse {
+            game_version,
+            protocol_version,
+            players_maximum: self.max,
+            players_online: self.online,
+            players: None,
+            description: self.motd.clone(),
+            favicon: None,
+            previews_chat: None,
+            enforces_secure_chat: None,
+            server_type: mc::Server::Legacy(group),
+        }
+    }
+}
+
+pub fn gen_legacy(c: &mut Chooser, kind: LegacyKind) -> LegacyState {
+    let s16 = |c: &mut Chooser, d: &str| {
+        pick(c, &[
+            d.to_string(),
+            String::new(),
+            "a".to_string(),
+            "Zürich 東京 surrogate 𝄞😀".to_string(),
+            long_string(200),
+        ])
+    };
+    LegacyState {
+        kind,
+        protocol: pick(c, &[78i32, 0, 1, 127, i32::MAX, -1]),
+        version: s16(c, "1.6.4"),
+        motd: s16(c, "A Minecraft Server"),
+        online: pick(c, &u32_alts(3)),
+        max: pick(c, &u32_alts(20)),
+    }
+}
+
+// ---------------------------------------------------------------------------
+// A server speaking any subset of the five variants (auto-detection)
+
+#[derive(Clone, Debug)]
+pub struct McServer {
+    pub java: Option<JavaState>,
+    pub bedrock: Option<BedrockState>,
+    pub v1_6: Option<LegacyState>,
+    pub v1_4: Option<LegacyState>,
+    pub vb1_8: Option<LegacyState>,
+    /// TCP connections are accepted at all (false: refused when no TCP variant is spoken)
+    pub refuse_tcp_when_silent: bool,
+}
+
+impl McServer {
+    pub fn none() -> Self {
+        Self {
+            java: None,
+            bedrock: None,
+            v1_6: None,
+            v1_4: None,
+            vb1_8: None,
+            refuse_tcp_when_silent: false,
+        }
+    }
+    fn any_tcp(&self) -> bool { self.java.is_some() || self.v1_6.is_some() || self.v1_4.is_some() || self.vb1_8.is_some() }
+}
+
+impl Responder for McServer {
+    fn accept(&mut self, tcp: bool, _addr: &SocketAddr) -> bool { !(tcp && self.refuse_tcp_when_silent && !self.any_tcp()) }
+
+    fn on_datagram(&mut self, _c: &ConnInfo, data: &[u8]) -> Vec<Vec<u8>> {
+        match &self.bedrock {
+            Some(b) if data == bedrock_request().as_slice() => vec![b.datagram()],
+            _ => vec![],
+        }
+    }
+
+    fn stream(&mut self, conn: &ConnInfo) -> Option<Vec<u8>> {
+        let sent: Vec<u8> = conn.sent.concat();
+        if let Some(j) = &self.java {
+            if is_java_request(&sent) {
+                return Some(j.stream());
+            }
+        }
+        if let Some(s) = &self.v1_6 {
+            if sent == legacy_request(LegacyKind::V1_6) {
+                return Some(s.stream());
+            }
+        }
+        if let Some(s) = &self.v1_4 {
+            if sent == legacy_request(LegacyKind::V1_4) {
+                return Some(s.stream());
+            }
+        }
+        if let Some(s) = &self.vb1_8 {
+            if sent == legacy_request(LegacyKind::VB1_8) {
+                return Some(s.stream());
+            }
+        }
+        None
+    }
+}
